@@ -120,6 +120,11 @@ pub fn worker<P: Property>(tier: Tier, seed: u64, start: u64, end: u64, total: u
     let known = load_known();
     let mut known_seen: Vec<(String, String)> = vec![];
     let mut new_count = 0usize;
+    let mut runlog: Option<std::io::BufWriter<std::fs::File>> = if std::env::var("VERIF_RUNLOG").is_ok() {
+        Some(std::io::BufWriter::new(std::fs::File::create(format!("{}.runlog", prefix)).expect("runlog")))
+    } else {
+        None
+    };
     for run in start..end {
         let _ = status.write_all_at(&run.to_le_bytes(), 0);
         let t = match guarded(|| gen_trace::<P>(seed, run, tier)) {
@@ -131,6 +136,11 @@ pub fn worker<P: Property>(tier: Tier, seed: u64, start: u64, end: u64, total: u
         };
         let o = exec_safely::<P>(&t, &mut cov);
         out.runs_done += 1;
+        if let Some(w) = runlog.as_mut() {
+            // event log for the determinism self-test: trace hash, abstract-trace hash, verdict
+            let th = crate::rng::fnv_bytes(0xcbf2_9ce4_8422_2325, &serde_json::to_vec(&t).unwrap());
+            let _ = writeln!(w, "{} {:016x} {:016x} {} {}", run, th, o.abs_hash, o.nontrivial as u8, o.violation.as_ref().map(|v| format!("{}|{}|{}", v.clause, v.locus, v.step)).unwrap_or_else(|| "-".into()));
+        }
         if o.nontrivial {
             out.nontrivial += 1;
             let b = (o.abs_hash as usize) & (nbits - 1);
@@ -155,6 +165,9 @@ pub fn worker<P: Property>(tier: Tier, seed: u64, start: u64, end: u64, total: u
         }
     }
     let _ = status.write_all_at(&u64::MAX.to_le_bytes(), 0);
+    if let Some(mut w) = runlog.take() {
+        let _ = w.flush();
+    }
     for (k, v) in &cov.counters {
         *out.counters.entry(k.to_string()).or_insert(0) += v;
     }
@@ -799,5 +812,81 @@ pub fn replay_cmd(path: &Path) -> i32 {
             eprintln!("HARNESS-ERROR: {}", m);
             2
         }
+    }
+}
+
+/// `sim selftest determinism <P> <n>`: the same n seeded runs executed (a) by one worker process,
+/// (b) sharded over 16 worker processes, (c) by one worker again (another process, another hash
+/// seed); the per-run event logs (trace hash, abstract-trace hash, verdict) must be identical.
+pub fn determinism<P: Property>(n: u64) -> i32 {
+    let seed = seed_from_env();
+    let sdir = scratch_dir().join(format!("det-{}-{}", P::ID, std::process::id()));
+    let _ = std::fs::remove_dir_all(&sdir);
+    std::fs::create_dir_all(&sdir).expect("scratch");
+    std::env::set_var("VERIF_RUNLOG", "1");
+    let mut logs: Vec<Vec<String>> = vec![];
+    for (cfg, workers) in [("a", 1u64), ("b", 16), ("c", 3)] {
+        let per = n.div_ceil(workers);
+        let mut children = vec![];
+        for w in 0..workers {
+            let (s0, e0) = (w * per, ((w + 1) * per).min(n));
+            if s0 >= e0 {
+                continue;
+            }
+            let prefix = sdir.join(format!("{}{}", cfg, w)).to_string_lossy().to_string();
+            children.push(spawn_worker::<P>(Tier::Quick, seed, s0, e0, n, &prefix));
+        }
+        let mut lines: Vec<String> = vec![];
+        for mut c in children {
+            let st = c.proc.wait().expect("wait");
+            if !st.success() {
+                eprintln!("HARNESS-ERROR: determinism worker failed: {:?} (see {}.log)", st, c.prefix);
+                return 2;
+            }
+            let txt = std::fs::read_to_string(format!("{}.runlog", c.prefix)).unwrap_or_default();
+            lines.extend(txt.lines().map(|l| l.to_string()));
+        }
+        lines.sort_by_key(|l| l.split(' ').next().and_then(|x| x.parse::<u64>().ok()).unwrap_or(0));
+        logs.push(lines);
+    }
+    let _ = std::fs::remove_dir_all(&sdir);
+    let mut diffs = 0;
+    for i in 0..logs[0].len().max(logs[1].len()).max(logs[2].len()) {
+        let a = logs[0].get(i);
+        if a != logs[1].get(i) || a != logs[2].get(i) {
+            if diffs < 2 {
+                println!("  run log differs at line {}:\n    1 worker : {:?}\n    16 workers: {:?}\n    3 workers : {:?}", i, a, logs[1].get(i), logs[2].get(i));
+            }
+            diffs += 1;
+        }
+    }
+    println!("[{}] determinism: {} runs x 3 process layouts, {} differing log lines", P::ID, logs[0].len(), diffs);
+    if diffs == 0 {
+        0
+    } else {
+        2
+    }
+}
+
+/// `sim inproc <P> <start> <count>`: run seeded runs sequentially in THIS process (no worker
+/// processes, no guard pages under Miri). Used by the Miri lane.
+pub fn inproc<P: Property>(start: u64, count: u64) -> i32 {
+    install_panic_hook();
+    let seed = seed_from_env();
+    let mut cov = Cov::default();
+    let mut bad = 0;
+    for run in start..start + count {
+        let t = gen_trace::<P>(seed, run, Tier::Quick);
+        let o = exec_safely::<P>(&t, &mut cov);
+        if let Some(v) = o.violation {
+            println!("INPROC-VIOLATION property={} run={} clause={} locus={} detail={}", P::ID, run, v.clause, v.locus, v.detail);
+            bad += 1;
+        }
+    }
+    println!("[{}] inproc runs {}..{} done, {} violating", P::ID, start, start + count, bad);
+    if bad == 0 {
+        0
+    } else {
+        1
     }
 }
